@@ -86,8 +86,20 @@ def run(ctx):
     ctx.exhaustive["examples: every example citation of reporters-db"] = n
 
     # ---- minimal forms over the template family
+    from eyecite.tokenizers import EXTRACTORS
+    by_string = {}
+    for ex in EXTRACTORS:
+        for st in ex.strings:
+            by_string.setdefault(st, []).append(ex)
     fam = family_strings()
-    strings = fam if th else rng.sample(fam, 450)
+    # strings whose candidate editions include two different reporters sharing one abbreviation are always included
+    def eds_of(R):
+        out = set()
+        for ex in by_string.get(R, []):
+            out |= set(ex.extra.get("exact_editions", [])) | set(ex.extra.get("variation_editions", []))
+        return out
+    shared = [R for R in fam if len({e.short_name for e in eds_of(R)}) < len(eds_of(R))]
+    strings = fam if th else sorted(set(rng.sample(fam, 400)) | set(shared))
     if th:
         ctx.exhaustive["minimal: every database string of the $full_cite family x 2 forms"] = 2 * len(fam)
     for R in strings:
@@ -124,8 +136,16 @@ def run(ctx):
             if c.span() != (s0, want_end) or c.groups.get("volume") != str(vol) or c.groups.get("page") != str(page):
                 ctx.violation(None, f"span or groups of {core_!r} differ from the written components",
                               dict(stream="minimal", text=text, span=c.span(), groups=dict(c.groups)))
-            if not set(EDITIONS_LOOKUP.get(R, [])) & set(c.all_editions):
-                ctx.violation(None, f"the written reporter {R!r} is not among the candidate editions",
+            # every edition of every pattern that matches exactly these characters (same group structure)
+            want = set()
+            for ex in by_string.get(R, []):
+                if bool(ex.extra.get("short")) != short:
+                    continue
+                m = ex.compiled_regex.search(text)
+                if m and m.span(1) == (s0, want_end) and m.groupdict().get("reporter") == R:
+                    want |= set(ex.extra.get("exact_editions", [])) | set(ex.extra.get("variation_editions", []))
+            if not (want and want <= set(c.all_editions)):
+                ctx.violation(None, f"an edition the written reporter {R!r} names is not among the candidate editions",
                               dict(stream="minimal", text=text))
 
     # ---- rich forms with ground truth
